@@ -40,6 +40,8 @@ fn templates() -> Vec<(&'static str, Expr, bool)> {
         ("ok-call-cacheable", Expr::func("c", Expr::value(1)), false),
         ("ok-call-noncacheable", Expr::func("v", Expr::value(2)), false),
         ("ok-call-twice", Expr::Vec(vec![Expr::func("c", Expr::value(1)), Expr::func("c", Expr::value(1)), Expr::func("v", Expr::value(1))]), false),
+        ("ok-constant-condition-input-branch", Expr::iif(Expr::eq(Expr::symbol("sym"), Expr::symbol("sym")), Expr::some(Expr::reff("facts")), Expr::value(0)), false),
+        ("ok-literal-condition-input-branch", Expr::iif(Expr::value(false), Expr::value(1), Expr::Vec(vec![Expr::reff("facts"), Expr::value(2)])), false),
         ("ok-lazy-skips-error", Expr::or(Expr::value(true), Expr::func("e", Expr::value(9))), false),
         ("fail-type", Expr::add(Expr::value(1), s("x")), true),
         ("fail-div-zero", Expr::div(Expr::value(1), Expr::value(0)), true),
@@ -191,6 +193,43 @@ fn judge_ruleset(ctx: &mut Ctx, rules: &[(String, Expr)], labels: &[&str], facts
         }
     }
     ctx.hit(&format!("failing-rules:{}", failing.min(6)));
+    // the same ruleset, evaluated again on ANOTHER input: nothing of the first input may show
+    {
+        let other = match facts {
+            Value::Map(m) if !m.is_empty() => {
+                let mut m2 = m.clone();
+                m2.insert("a".to_string(), Value::Int(424_242));
+                m2.insert("b".to_string(), Value::None);
+                Value::Map(m2)
+            }
+            _ => Value::Map([("a".to_string(), Value::String("second input".into()))].into_iter().collect()),
+        };
+        ctx.count();
+        match eval_value(&b, &other) {
+            Ok(outs2) => {
+                let mut host2 = ModelHost::new(&d, &b.symbols, &plan);
+                for (i, (_, obs)) in outs2.iter().enumerate() {
+                    let (exp, wide) = {
+                        let mut r = RefEval::new(&other, &mut host2);
+                        let x = r.eval(&b.exprs[i].1);
+                        (x, r.wide_hit)
+                    };
+                    if wide {
+                        continue;
+                    }
+                    if let Some(mis) = compare(&exp, obs) {
+                        ctx.violation(format!("C09 second-input-outcome-{mis} rule-template={}", labels[i]), "the same ruleset evaluated on a second, different input does not give that input's own outcomes".to_string(), case(json!({"position": i, "second_input": format!("{other:?}"), "observed": show_obs(obs), "expected": show_exp(&exp)})));
+                        return;
+                    }
+                }
+                ctx.hit("second-input-checks");
+            }
+            Err(m) => {
+                ctx.violation("C09 whole-evaluation-failed", m, case(json!("second input")));
+                return;
+            }
+        }
+    }
     // differential isolation: the singleton ruleset holding only rule i gives the same outcome
     // (only meaningful when functions are deterministic, i.e. no positional fault plan)
     if plan.faults.is_empty() {
